@@ -10,10 +10,9 @@ namespace Pushr
 
 /-- one iteration: `j = i + off`; skip when `j` is outside `second`; `second[j] = op second[j] top[i]` -/
 def overlapStep {α : Type} (op : α → α → α) (off : Int) (acc : List α) (it : α × Nat) : List α :=
-  let j : Int := (it.2 : Int) + off
-  if 0 ≤ j then
-    match acc[j.toNat]? with
-    | some a => acc.set j.toNat (op a it.1)
+  if 0 ≤ (it.2 : Int) + off then
+    match acc[((it.2 : Int) + off).toNat]? with
+    | some a => acc.set ((it.2 : Int) + off).toNat (op a it.1)
     | none => acc
   else acc
 
@@ -25,9 +24,8 @@ def overlapLoop {α : Type} (op : α → α → α) (second top : List α) (off 
 overlaps, `second[j]` elsewhere; length of `second` -/
 def overlapSpec {α : Type} (op : α → α → α) (second top : List α) (off : Int) : List α :=
   second.zipIdx.map fun (a, j) =>
-    let i : Int := (j : Int) - off
-    if 0 ≤ i then
-      match top[i.toNat]? with
+    if 0 ≤ (j : Int) - off then
+      match top[((j : Int) - off).toNat]? with
       | some t => op a t
       | none => a
     else a
